@@ -112,7 +112,7 @@ extern "C" void harness(void)
 	vassert(isOld || isNewPrefix);
 	vassert(vio.f[1].durableExists && vio.f[1].durableSize == 0);
 	// (2) C16: the object being rewritten is in its old or in its (complete) new state
-	vassert(isOld || (isNewPrefix && dsz == FULL));
+	vassert_id(isOld || (isNewPrefix && dsz == FULL), 16001);
 	vreach();
 #elif OP == 2
 	// ---- one failing file operation at the VIO_AT-th file operation of the rewrite
@@ -197,9 +197,9 @@ extern "C" void harness(void)
 	static ObjectFile rec(NULL, "A", 0077, "B", false);
 	bool complete = rec.valid && rec.attributeExists(A_TOKEN) && rec.attributeExists(A_LABEL) && rec.attributeExists(A_MECH);
 	if (cut == FULL) { vassert(complete); vreach(); }
-	else if (cut == 0 || cut == 8 || cut == OFF_LABEL || cut == OFF_MECH) { vassert(!rec.valid || complete); vreach(); }        // (B) boundary cuts
+	else if (cut == 0 || cut == 8 || cut == OFF_LABEL || cut == OFF_MECH) { vassert_id(!rec.valid || complete, 16002); vreach(); }        // (B) boundary cuts
 	else if ((cut > 0 && cut < 8) || (cut > OFF_LABEL && cut < OFF_LABEL + 8) || (cut > OFF_MECH && cut < OFF_MECH + 8) || (cut > OFF_TOKEN && cut < OFF_TOKEN + 8))
-	{ vassert(!rec.valid || complete); vreach(); }                                                                              // (D) cut inside the 8-byte type field of a record
+	{ vassert_id(!rec.valid || complete, 16003); vreach(); }                                                                      // (D) cut inside the 8-byte type field of a record
 	else { vassert(!rec.valid); vreach(); }                                                                                     // (C) cut inside a record body: must be rejected
 #endif
 }
